@@ -461,7 +461,8 @@ def render_fn(repo: Repo, fb: FnBlock, rules: Counter, info: dict, canary: bool 
             raise LostAnchor(f'loop {n} of fn {fb.name} not found (body has {len(loops)} loops)')
         (p, o, c) = loops[n - 1]
         ins.append((o, '\n' + text.rstrip() + '\n'))
-    for where, text in fb.hints:
+    for where, text0 in fb.hints:
+        text = '/*HINT-BEGIN*/' + text0 + '/*HINT-END*/'
         w = where.split(None, 1)
         if w[0] == 'start':
             ins.append((0, '\n' + text))
@@ -671,4 +672,16 @@ def build_unit(template_path: str, repo_root: str, verif_root: str, canary: bool
             i += 1
     info['rules'] = dict(rules)
     info['fn_spans'] = fn_spans
-    return '\n'.join(out), info
+    final = '\n'.join(out)
+    # line ranges of ghost hint blocks (errors inside them are proof-internal, not contract-level)
+    spans = []
+    pos = 0
+    while True:
+        a = final.find('/*HINT-BEGIN*/', pos)
+        if a < 0:
+            break
+        b = final.find('/*HINT-END*/', a)
+        spans.append((final.count('\n', 0, a) + 1, final.count('\n', 0, b) + 1))
+        pos = b + 1
+    info['hint_spans'] = spans
+    return final, info
